@@ -133,8 +133,10 @@ func genTplValue(r *rand.Rand) string {
 			b = append(b, byte('0'+r.Intn(10)))
 		case w < 23:
 			b = append(b, ' ')
-		case w < 25:
+		case w < 24:
 			b = append(b, '\n')
+		case w < 25:
+			b = append(b, '\t')
 		default:
 			b = append(b, punct[r.Intn(len(punct))])
 		}
